@@ -51,7 +51,7 @@ def file_oracle(body, prog):
             out.append(("bytes", f.readline(-1 if size is None else size)))
         elif kind == "readlines":
             out.append(("lines", f.readlines()))
-        elif kind == "next":
+        elif kind in ("next", "iternext"):
             line = f.readline()
             out.append(("bytes", line) if line else ("stop", None))
     return out
@@ -75,6 +75,7 @@ def real_run(spec, chunks, prog):
     parser = RequestParser(lp.real_cfg(spec), iter(chunks), lp.DEFAULT_PEER)
     req = next(parser)
     out = []
+    it = None                  # the iterator a `for` loop would hold (iter(wsgi.input), obtained once)
     for kind, size in prog:
         try:
             if kind == "read":
@@ -84,8 +85,10 @@ def real_run(spec, chunks, prog):
             elif kind == "readlines":
                 out.append(("lines", req.body.readlines()))
             else:
+                if kind == "iternext" and it is None:
+                    it = iter(req.body)
                 try:
-                    out.append(("bytes", next(req.body)))
+                    out.append(("bytes", next(it if kind == "iternext" else req.body)))
                 except StopIteration:
                     out.append(("stop", None))
         except Exception as e:
